@@ -18,6 +18,7 @@ import (
 	"bytes"
 	"crypto/tls"
 	"crypto/x509"
+	"encoding/binary"
 	"encoding/json"
 	"fmt"
 	"io"
@@ -233,6 +234,12 @@ func (ep *ExportingProcess) SendSet(set entities.Set) (int, error) {
 	setType := set.GetSetType()
 	if setType == entities.Undefined {
 		return 0, fmt.Errorf("set type is not properly defined")
+	}
+	if setType == entities.Data {
+		// The Set ID of a Data Set is the ID of the Template describing its records.
+		if err := ep.dataSetSanityCheck(set); err != nil {
+			return 0, fmt.Errorf("error when doing sanity check:%v", err)
+		}
 	}
 	for _, record := range set.GetRecords() {
 		if setType == entities.Template {
@@ -461,6 +468,28 @@ func (ep *ExportingProcess) dataRecSanityCheck(rec entities.Record) error {
 	}
 	if err := entities.EncodingError(rec); err != nil {
 		return fmt.Errorf("process: Data Record holds a value that cannot be encoded: %v", err)
+	}
+	return nil
+}
+
+// dataSetSanityCheck checks that the ID in the header of a Data Set refers to a
+// template that was sent before, and that every record was added with that ID.
+func (ep *ExportingProcess) dataSetSanityCheck(set entities.Set) error {
+	header := set.GetHeaderBuffer()
+	if len(header) < entities.SetHeaderLen {
+		return fmt.Errorf("process: data set has no set header")
+	}
+	setID := binary.BigEndian.Uint16(header[0:2])
+	ep.templateMutex.Lock()
+	_, exist := ep.templatesMap[setID]
+	ep.templateMutex.Unlock()
+	if !exist {
+		return fmt.Errorf("process: templateID %d of the data set does not exist in exporting process", setID)
+	}
+	for _, record := range set.GetRecords() {
+		if record.GetTemplateID() != setID {
+			return fmt.Errorf("process: data record with templateID %d in data set with templateID %d", record.GetTemplateID(), setID)
+		}
 	}
 	return nil
 }
